@@ -129,3 +129,21 @@ Proof.
   split; [exact witness_upvalue_inv|].
   intros reach [<-|[<-|[<-|[]]]]; vm_compute; intro H; discriminate H.
 Qed.
+
+(* ---- a raw slot ADDRESS cached across a growth is stale: the write that replaces the top slot is visible
+   when no growth happened in between and LOST (it lands in the abandoned array) when the stack was
+   reallocated - the program's result then depends on the initial stack size.  The machine's operations
+   (`step`) only ever address slots relative to the CURRENT sp/fp; `poke` is not one of them. ---- *)
+Lemma stale_slot_address :
+  exists s nb v, GInv s /\
+    let a := sp s - W in
+    abs (poke s a v) <> abs s /\
+    abs (poke (grow s nb) a v) = abs (grow s nb) /\
+    abs (poke (grow s nb) (sp (grow s nb) - W) v) <> abs (grow s nb).
+Proof.
+  exists witness_two_frames, 50000, 77. split; [exact witness_two_frames_inv|].
+  cbv zeta. split; [|split].
+  - vm_compute. intro H. discriminate H.
+  - vm_compute. reflexivity.
+  - vm_compute. intro H. discriminate H.
+Qed.
